@@ -77,7 +77,13 @@ type c20Thread struct {
 }
 
 func c20Scenario(c *Ctx, name string, oneZone bool, T int, payloadLen int, prologue []string, threads []c20Thread, ticks []int64, b vsched.Bounds) Sched {
-	cfg := env.BasicConfig(config.CacheConfig{})
+	withStore := strings.Contains(name, "store")
+	uncacheable := strings.Contains(name, "hit-for-pass")
+	cc := config.CacheConfig{}
+	if withStore {
+		cc.Store = "fault://c20"
+	}
+	cfg := env.BasicConfig(cc)
 	cfg.Compresses = []config.CompressConfig{{Name: "cp", Levels: map[string]uint{"gzip": 6, "br": 5}}}
 	cfg.Servers[0].Compress = "cp"
 	cfg.Servers[0].CompressMinLength = "1kb" // explicit: an in-place server update does not re-apply the default (see C16)
@@ -90,7 +96,12 @@ func c20Scenario(c *Ctx, name string, oneZone bool, T int, payloadLen int, prolo
 		Opt:    vsched.Options{Ticks: ticks},
 		Bounds: b,
 		Setup: func() ([]func(), func(*vsched.Exec) *vsched.Violation, func() string) {
-			e := getEnv(cfg, "c20")
+			envKey := "c20"
+			if withStore {
+				envKey = "c20store"
+				env.NewFaultStore().Register("fault://c20")
+			}
+			e := getEnv(cfg, envKey)
 			// restore the initial configuration (a previous execution may have reloaded)
 			compress.Reset(cfg.Compresses)
 			location.Reset(cfg.Locations)
@@ -102,6 +113,9 @@ func c20Scenario(c *Ctx, name string, oneZone bool, T int, payloadLen int, prolo
 			vtime.Set(vtime.Base)
 			vsched.ClockStart = vtime.Base
 			e.Respond = func(oc *env.OriginCall) env.OriginResp {
+				if uncacheable && oc.Path == "/k1" {
+					return env.Uncacheable(oc, payload)
+				}
 				r := env.Cacheable(oc, T, payload)
 				r.Header.Set("ETag", `"v1"`)
 				return r
@@ -198,6 +212,16 @@ func init() {
 		c.RunSched(c20Scenario(c, "same-zone-hits-and-misses", true, 60, 64, []string{"/k1", "/k2"}, []c20Thread{
 			{Reqs: []env.Req{{URI: "/k1"}, {URI: "/k3"}}},
 			{Reqs: []env.Req{{URI: "/k2"}}},
+			{Reqs: []env.Req{{URI: "/k1"}, {URI: "/k2"}}},
+		}, nil, vsched.Bounds{Preempt: pre, Tick: 0, Data: -1, Total: -1}))
+		c.RunSched(c20Scenario(c, "store-fetch-wait-purge", false, 60, 1500, nil, []c20Thread{
+			{Reqs: []env.Req{{URI: "/k1", Header: ae("gzip")}}},
+			{Reqs: []env.Req{{URI: "/k1", Header: ae("br")}, {URI: "/k2"}}},
+			{Purge: "/k1", Reqs: []env.Req{{URI: "/k1"}}},
+		}, nil, vsched.Bounds{Preempt: pre, Tick: 0, Data: -1, Total: -1}))
+		c.RunSched(c20Scenario(c, "hit-for-pass-burst-store", false, 60, 64, nil, []c20Thread{
+			{Reqs: []env.Req{{URI: "/k1"}, {URI: "/k1"}}},
+			{Reqs: []env.Req{{URI: "/k1", Header: ae("gzip")}}},
 			{Reqs: []env.Req{{URI: "/k1"}, {URI: "/k2"}}},
 		}, nil, vsched.Bounds{Preempt: pre, Tick: 0, Data: -1, Total: -1}))
 		c.RunSched(c20Scenario(c, "requests-during-reload", false, 60, 1500, []string{"/k1"}, []c20Thread{
